@@ -252,8 +252,8 @@ pub fn run(tier: Tier) -> Report {
         let (exp_ok, exp_err, stored) = expected(&sc);
         let shards = sc.shards;
         let exp_store: Vec<(usize, Vec<TrackDump>)> = (0..shards).map(|k| (k, stored.iter().filter(|t| (t.id as usize) % shards == k).cloned().collect())).collect();
-        let cfg = sched::ExploreCfg { mode: sched::Mode::Fine, window: (1, 1), bound: 1, deadline: Some(std::time::Instant::now() + std::time::Duration::from_secs_f64((rep.budget() - rep.elapsed()).max(1.0))), ..Default::default() };
-        let scj = json!({"shards":shards,"batch":sc.batch,"only_baked":sc.only_baked,"tracks":sc.ntracks,"granularity":"every synchronisation operation"});
+        let cfg = sched::ExploreCfg { mode: sched::Mode::Fine, count_all_deviations: true, window: (1, 1), bound: 1, deadline: Some(std::time::Instant::now() + std::time::Duration::from_secs_f64((rep.budget() - rep.elapsed()).max(1.0))), ..Default::default() };
+        let scj = json!({"shards":shards,"batch":sc.batch,"only_baked":sc.only_baked,"tracks":sc.ntracks,"granularity":"every synchronisation operation, at most one departure from the default schedule"});
         let sc_run = sc.clone();
         let stats = sched::explore(&cfg, move || run_scenario(&sc_run), |x| match &x.outcome {
             sched::Outcome::Done(o) => {
